@@ -4,7 +4,7 @@
     deciding parts of the three generators; the check evaluates the same obligations in Coq on the
     identifiers read back from the generated files. Partial by nature (see DESIGN.md). *)
 From Coq Require Import List String Bool ZArith.
-From GM Require Import Base.Result Facts.GoFacts Model.Enums Model.Names Model.GoScope Proofs.C01.
+From GM Require Import Base.Result Facts.GoFacts Facts.Ana Model.Enums Model.Names Model.GoScope Model.GoUnionsGen Proofs.C01 Proofs.C01g.
 Import ListNotations.
 Local Open Scope string_scope.
 
@@ -21,6 +21,39 @@ Theorem C01_receivers_are_local : forall types pkg id, receiver_ok types pkg id 
   exists d, find_type id types = Some d /\ n_pkg d = pkg /\ (forall ms, n_under d <> UInterface ms).
 Proof. exact receiver_ok_local. Qed.
 
+(** gounions, for every analysed program and every source list on which the traversal completes: the wrapper
+    types the JSON routines mention without a package are declared by the output itself ("no undefined
+    identifier", for the identifiers the generator invents). The premise is decidable and evaluated on every run:
+    the structs whose routines are written belong to the analysed package (its failure is an open finding). *)
+Theorem C01_gounions_output_is_closed : forall pr nodes,
+  structs_with_unions_local pr nodes = true ->
+  forall src ds, gounions pr nodes true src = Ok ds -> closed ds = true.
+Proof. exact gounions_closed. Qed.
+
+(** methods are written on the wrapper types of the output or on defined types of the analysed package *)
+Theorem C01_gounions_receivers_are_local : forall pr nodes b src ds,
+  structs_with_unions_local pr nodes = true ->
+  gounions pr nodes b src = Ok ds -> Forall (receiver_fine pr) ds.
+Proof. exact gounions_receivers_local. Qed.
+
+(** the only types the output declares are the wrappers <Union>Wrapper, one per declaration of an union, and
+    distinct unions get distinct wrapper names *)
+Theorem C01_gounions_declares_wrappers_only : forall pr nodes b src ds,
+  gounions pr nodes b src = Ok ds -> Forall declares_for_unions_only ds.
+Proof. exact gounions_declares_wrappers_only. Qed.
+
+Theorem C01_wrapper_names_are_distinct : forall names, NoDup names -> NoDup (map (fun n => n ++ "Wrapper") names).
+Proof. exact wrapper_names_nodup. Qed.
+
+(** the traversal before fix 247447e left the wrapper of an ignored union field undeclared; the repaired one,
+    on the same program, declares it (non-vacuity of the closure theorem: its premise holds here) *)
+Theorem C01_ignored_union_field_refuted :
+  structs_with_unions_local ex_prog ex_nodes = true
+  /\ (exists ds, gounions ex_prog ex_nodes false [GNamed "m.T"] = Ok ds /\ closed ds = false)
+  /\ (exists ds, gounions ex_prog ex_nodes true [GNamed "m.T"] = Ok ds /\ closed ds = true
+                 /\ map gd_id ds = ["Shape"; "T_json"] /\ declared_types ds = ["ShapeWrapper"]).
+Proof. exact ignored_union_field_refuted. Qed.
+
 (** regression witness (pinned tree) and open finding (constant names of gounions are not injective) *)
 Theorem C01_pinned_enum_choices_refuted :
   let mk := fun n e => {| em_name := n; em_val := CInt 0%Z; em_exact := "0"; em_exported := e; em_comment := "" |} in
@@ -36,3 +69,8 @@ Print Assumptions C01_enum_choice_list_exact.
 Print Assumptions C01_receivers_are_local.
 Print Assumptions C01_pinned_enum_choices_refuted.
 Print Assumptions C01_kind_constant_names_collide_refuted.
+Print Assumptions C01_gounions_output_is_closed.
+Print Assumptions C01_gounions_receivers_are_local.
+Print Assumptions C01_gounions_declares_wrappers_only.
+Print Assumptions C01_wrapper_names_are_distinct.
+Print Assumptions C01_ignored_union_field_refuted.
